@@ -127,3 +127,15 @@ package memmetrics
 //@   modifies elems(c.values), c.lastBucket, c.countedBuckets, c.lastUpdated
 //@   ensures emptied: c.lastUpdated == zerotime && c.countedBuckets == 0 && (forall j int :: 0 <= j && j < len(c.values) ==> c.values[j] == 0)
 //@   loop 1 invariant -1 <= rangeindex && rangeindex < len(c.values) && len(c.values) == old(len(c.values)) && (forall j int :: 0 <= j && j <= rangeindex ==> c.values[j] == 0)
+
+// ---- round-trip metrics (coarse contracts: which counters move; used by the circuit breaker, C18) ------
+
+//@ func (*RTMetrics).Reset
+//@   props C18
+//@   requires m != nil
+//@   modifies everything
+
+//@ func (*RTMetrics).Record
+//@   props C18
+//@   requires m != nil
+//@   modifies everything
